@@ -10,7 +10,7 @@ def geneOfJson (j : Json) : R Gene := do
   return { id := ← natF j "id", loc := ← locOfJson (← fld j "loc"), cores := cores }
 
 def kindOfStr : String → R Kind
-  | "proto" => pure .proto | "cand" => pure .cand | "sub" => pure .sub | "region" => pure .region
+  | "proto" => pure .proto | "sideproto" => pure .sideProto | "cand" => pure .cand | "sub" => pure .sub | "region" => pure .region
   | s => throw s!"bad kind {s}"
 
 partial def areaOfJson (j : Json) : R AreaT := do
@@ -37,6 +37,8 @@ def opOfJson (j : Json) : R Op := do
   | "peek" => return .peekArea (← asNat (← idx j 1))
   | "name" => return .byName (← asNat (← idx j 1))
   | "within_regions" => return .withinRegions
+  | "has" => return .hasCds (← asNat (← idx j 1)) (← asNat (← idx j 2))
+  | "index" => return .indexOf (← asNat (← idx j 1)) (← asNat (← idx j 2))
   | t => throw s!"bad op {t}"
 
 def ids (gs : List Gene) : Json := toJson (gs.map (·.id))
@@ -70,8 +72,8 @@ partial def kidsInside : AreaT → Bool
 partial def kindsWF : AreaT → Bool
   | .mk _ kind _ _ _ kids =>
     (match kind with
-      | .proto | .sub => kids.isEmpty
-      | .cand => kids.all (·.kind == .proto)
+      | .proto | .sub | .sideProto => kids.isEmpty
+      | .cand => kids.all fun k => k.kind == .proto || k.kind == .sideProto
       | .region => kids.all fun k => k.kind == .cand || k.kind == .sub)
     && kids.all kindsWF
 
@@ -100,7 +102,7 @@ def obsOf (extra : List AreaT) (ops : List Op) (r : Rec) : Json :=
     ("sections", jArr (ns.map fun a => jArr [toJson a.id, jLists (secLists r a.id)])),
     ("region", jArr ((opsGenes ops).map fun g => jArr [toJson g.id,
         match r.regionOfGene g.id with | some x => toJson x | none => Json.null])),
-    ("defs", jArr ((ns.filter (·.kind == .proto)).map fun a => jArr [toJson a.id, jNats (sortNats (r.definition a.id))])),
+    ("defs", jArr ((ns.filter (fun a => a.kind == .proto || a.kind == .sideProto)).map fun a => jArr [toJson a.id, jNats (sortNats (r.definition a.id))])),
     ("log", jArr (r.log.map jLists))]
 
 /-- the nodes the record currently serves: the collections in it and their descendants -/
@@ -126,7 +128,8 @@ def specObs (extra : List AreaT) (ops : List Op) : Json :=
     ("sections", jArr (ns.map fun (a, _) => jArr [toJson a.id,
         if ownSections l a then jLists (specSecLists l.genes a) else Json.null])),
     ("region", jArr (l.genes.map fun g => jArr [toJson g.id, jNats (sortNats (specRegions l.regions g))])),
-    ("defs", jArr ((ns.filter (·.1.kind == .proto)).map fun (a, alive) => jArr [toJson a.id,
+    ("defs", jArr ((ns.filter (fun x => x.1.kind == .proto || x.1.kind == .sideProto)).map fun (a, alive) => jArr [toJson a.id,
+        if a.kind == .sideProto then jNats [] else
         if alive then jNats (sortNats (specDefinition l.genes a)) else Json.null]))]
 
 def sameSet (a b : List Nat) : Bool := sortNats a == sortNats b
@@ -146,13 +149,21 @@ def checkOut (l : Live) (op : Op) (out : List (List Nat)) : Bool :=
       && (!ownSections l d || [sortNats pre, sortNats cross, sortNats post] == specSecLists l.genes d)
   | .byName gid, [[i, s, e]] =>
     i == gid && l.genes.any fun g => g.id == gid && g.loc.start.toNat == s && g.loc.end.toNat == e
+  | .hasCds aid gid, [[b]] =>
+    match (liveNodes l).find? (·.id == aid) with
+    | none => b ≤ 1
+    | some d => b == (if (specChildren l.genes d).contains gid then 1 else 0)
+  | .indexOf aid gid, [[i]] =>
+    match (liveNodes l).find? (·.id == aid) with
+    | none => true
+    | some d => (specChildren l.genes d).contains gid && decide (i < (specChildren l.genes d).length)
   | .withinRegions, [got] =>
     got == sortNats ((l.genes.filter fun g => l.regions.any fun a => specContained g.loc a.loc).map (·.id))
   | _, _ => false
 where distinctIds (l : List Nat) : Bool := (sortNats l).length == l.length
 
 def isPeek : Op → Bool
-  | .peekCds | .peekArea _ | .byName _ | .withinRegions => true
+  | .peekCds | .peekArea _ | .byName _ | .withinRegions | .hasCds _ _ | .indexOf _ _ => true
   | _ => false
 
 /-- spec verdicts for the implementation's log, one per observing call, in order -/
